@@ -12,9 +12,23 @@ package check
 //@   ensures rs: result1 == nil ==> 1 <= old(R.val) && old(R.val) < N && 1 <= old(S.val) && old(S.val) <= div(N, 2)
 
 //@ # ASSUMED: decoding and sender recovery of checks do not modify program-visible state
+//@ ghost decodedCheck(raw []byte) *Check
+//@ ghost issuerOf(c *Check) types.Address
 //@ func DecodeFromBytes
 //@   trusted
+//@   ensures result1 == nil ==> result0 != nil && result0 == decodedCheck(buf) && result0.Value != nil && result0.Value.val >= 0 && result0.Lock != nil
 //@   modifies nothing
 //@ func (*Check).Sender
 //@   trusted
+//@   ensures result1 == nil ==> result0 == issuerOf(check)
+//@   modifies nothing
+//@ func (*Check).LockPubKey
+//@   trusted
+//@   modifies nothing
+
+//@ # ASSUMED: the identifying hash of a check is a function of the check (RLP + Keccak are uninterpreted here)
+//@ ghost checkHash(c *Check) types.Hash
+//@ func (*Check).Hash
+//@   trusted
+//@   ensures result == checkHash(check)
 //@   modifies nothing
